@@ -167,6 +167,10 @@ impl<const B_SIZE: usize> RSSupport for RSSupportPlain<B_SIZE> {
                 break;
             }
             first_sblock_id += step;
+            #[cfg(qwt_verif)]
+            crate::verif::probe(9);
+            #[cfg(qwt_verif)]
+            crate::verif::sched_point();
         }
 
         first_sblock_id -= step;
@@ -176,6 +180,8 @@ impl<const B_SIZE: usize> RSSupport for RSSupportPlain<B_SIZE> {
                 break;
             }
             first_sblock_id += 1;
+            #[cfg(qwt_verif)]
+            crate::verif::sched_point();
         }
 
         first_sblock_id -= 1;
